@@ -113,6 +113,12 @@ impl AddressRecord {
         self.score
     }
 
+    /// Get address score (verification adapter).
+    #[cfg(litep2p_verif)]
+    pub fn verif_score(&self) -> i32 {
+        self.score
+    }
+
     /// Get address.
     pub fn address(&self) -> &Multiaddr {
         &self.address
@@ -220,6 +226,16 @@ impl AddressStore {
         Self {
             addresses: HashMap::with_capacity(MAX_ADDRESSES),
             max_capacity: MAX_ADDRESSES,
+        }
+    }
+
+    /// Create an [`AddressStore`] with a custom capacity (verification adapter; mirrors the
+    /// struct literal used by the unit test `evict_on_capacity`).
+    #[cfg(litep2p_verif)]
+    pub fn verif_with_capacity(max_capacity: usize) -> Self {
+        Self {
+            addresses: HashMap::new(),
+            max_capacity,
         }
     }
 
